@@ -7,7 +7,7 @@ sys.path.insert(0, os.path.join(repo, "src"))
 logging.disable(logging.CRITICAL)
 from pyrtma.parser import Parser
 
-BASE = dict(name="FOO", id=1234, fields=[("a", "int32"), ("b", "int32"), ("c", "double")])
+BASE = dict(name="FOO", id=1234, fields=[("a", "int32"), ("b", "int32"), ("c", "double"), ("d", "float[4]"), ("e", "char[8]")])
 
 
 def text(d, comment=False, extra=False):
@@ -50,11 +50,13 @@ try:
             bad.append(f"struct hash differs with {label}: {s0[:8]} vs {s[:8]}")
     edits = {
         "rename": dict(BASE, name="FOO2"), "id change": dict(BASE, id=1235),
-        "field rename": dict(BASE, fields=[("a", "int32"), ("bb", "int32"), ("c", "double")]),
-        "field type change": dict(BASE, fields=[("a", "int32"), ("b", "uint32"), ("c", "double")]),
-        "field insertion": dict(BASE, fields=[("a", "int32"), ("b", "int32"), ("n", "int32"), ("m", "int32"), ("c", "double")]),
-        "field deletion": dict(BASE, fields=[("a", "int32"), ("b", "int32")]),
-        "field reordering": dict(BASE, fields=[("b", "int32"), ("a", "int32"), ("c", "double")]),
+        "field rename": dict(BASE, fields=[("a", "int32"), ("bb", "int32")] + BASE["fields"][2:]),
+        "field type change": dict(BASE, fields=[("a", "int32"), ("b", "uint32")] + BASE["fields"][2:]),
+        "field array length change": dict(BASE, fields=BASE["fields"][:3] + [("d", "float[6]"), ("e", "char[8]")]),
+        "field array -> scalar": dict(BASE, fields=BASE["fields"][:3] + [("d", "float"), ("e", "char[8]")]),
+        "field insertion": dict(BASE, fields=[("a", "int32"), ("b", "int32"), ("n", "int32"), ("m", "int32")] + BASE["fields"][2:]),
+        "field deletion": dict(BASE, fields=BASE["fields"][:2] + BASE["fields"][3:]),
+        "field reordering": dict(BASE, fields=[("b", "int32"), ("a", "int32")] + BASE["fields"][2:]),
         "message -> signal": dict(BASE, fields=None),
     }
     for label, d in edits.items():
